@@ -73,10 +73,14 @@ CLAIMS = {
          "ILLEGAL (lex_all is total); the parser - all 20 mutually recursive parse functions - returns on every such token list within the "
          "fuel the model allots (depth <= 6 per remaining token + rank: every loop iteration and every cycle of the call graph consumes a "
          "token), never through the branch in which the Go code would panic, with a program and no recorded error or with at least one "
-         "error, each carrying a line >= 1; an input on which the lexer stops at an illegal character is always rejected. The parser's loop "
-         "guards are regenerated from parser.go. Not theorems: rejection of unterminated strings / comments / blocks / argument lists "
-         "(decided by the oracle on every prefix and mutation of generated templates and exhaustive lexeme sequences), and that the models "
-         "are the code (correspondence, with a watchdog outside the process).", "8.C08",
+         "error, each carrying a line >= 1; an input on which the lexer stops at an illegal character is always rejected; and (ParseReject.v) a "
+         "token list that holds an ILLEGAL token anywhere - illegal character, unterminated string, unterminated comment - is always "
+         "rejected, given that an ILLEGAL token is followed only by ILLEGAL/EOF and EOF is last (no parse function steps over a token "
+         "before it has seen its type or seen that the next token cannot follow an ILLEGAL one). The parser's loop guards are "
+         "regenerated from parser.go. Not theorems: that shape of the lexer's output in general (proved for the stuck-lexer case, "
+         "evaluated by the extracted definitions on every generated input), rejection of unterminated blocks / argument lists (oracle on "
+         "every prefix and mutation of generated templates and exhaustive lexeme sequences), and that the models are the code "
+         "(correspondence, with a watchdog outside the process).", "8.C08",
          "termination + program-or-error theorems for the lexer and parser models (measure: remaining tokens, rank on the call graph) + translator-pinned loop guards + exhaustive lexeme-sequence oracle"),
  "C09": ("proof", "Theorem by mutual induction over the evaluator's fuel: on a well-formed program (no nil node where one is dereferenced, "
          "dot keys are identifiers, component arguments are object literals) no expression, statement, block, loop or render of the model "
